@@ -555,8 +555,12 @@ class Executor:
         if len(cands) > 1 and self.cur_fn:
             # closures generated by one macro share a span: take the one nested in the function being executed
             cur = self.cur_fn[-1]
-            mine = [n for n in cands if n.startswith(cur + '::{closure#')]
-            direct = [n for n in mine if '::{closure#' not in n[len(cur) + 2 + n[len(cur) + 2:].find('}') + 1:]] or mine
+            # items generated several times by one macro are kept as name#k: the copy's closures carry the same #k
+            mk = re.search(r'#\d+$', cur)
+            sfx = mk.group(0) if mk else ''
+            if sfx: cur = cur[:-len(sfx)]
+            mine = [n for n in cands if n.startswith(cur + '::{closure#') and (n.endswith(sfx) if sfx else not re.search(r'#\d+$', n))]
+            direct = [n for n in mine if '::{closure#' not in (n[:-len(sfx)] if sfx else n)[len(cur) + 2 + n[len(cur) + 2:].find('}') + 1:]] or mine
             if len(direct) >= 1: return direct[0]
             raise Unsupported(f'closure {span}: {len(cands)} candidates, none nested in {cur}')
         return cands[0]
